@@ -599,3 +599,50 @@ def check_C04(tier, seed):
 
 
 CHECKS["C04"] = check_C04
+
+
+# ---------------------------------------------------------------------- C05
+def _c05_events():
+    return [{"op": "cfg", "caching": True}, drain_ev(1), drain_ev(1, eqto=2), drain_ev(1, eqto=2),
+            {"op": "cfg", "caching": False}, drain_ev(2, eqto=2), drain_ev(2, eqto=2),
+            # the same expression object under the other configuration, back and forth
+            drain_ev(1, eqto=2), {"op": "cfg", "caching": True}, drain_ev(2, eqto=2), drain_ev(1, eqto=2)]
+
+
+def check_C05(tier, seed, extra_programs=None):
+    run = Run("C05", tier, seed)
+    quick = tier == "quick"
+    rng = random.Random(seed)
+    run.rule = ("every generated program (G1, G2 joins over 2 and 3 variables, disjunctions over equal and different variable "
+                "sets, negation, for_all, nested queries) is built twice and evaluated under caching enabled (3 times) and "
+                "disabled (twice), then each object under the other configuration; TLC judges every evaluation against the "
+                "denotation (multiset when all variables are selected) and all row sets must be equal; non-trivial = a "
+                "cached evaluation that took >=1 retrieval from an operator cache and returned a non-trivial answer")
+    run.assumptions = QUERY_ASSUMPTIONS
+    qc = QueryCheck(run)
+    findings = [f for f in load_findings() if f["property"] == "C05"]
+    for nv in (1, 2, 3):
+        progs = _programs(run, nv, quick, sim_quick=500, sim_full=8000, leaf_quick=10 if nv < 3 else 8,
+                          leaf_full=30 if nv == 1 else (24 if nv == 2 else 16))
+        if quick:
+            progs = rng.sample(progs, min(len(progs), 900))
+        elif len(progs) > 30000:
+            progs = rng.sample(progs, 30000)
+            run.exhaustive = False
+        for p in progs:
+            W, doms = _world_and_doms(rng, nv, quick)
+            q = mk_query(p, doms)
+            qc.add(W, [q, copy.deepcopy(q)], _c05_events())
+    for (W, q) in (extra_programs or []):
+        qc.add(W, [q, copy.deepcopy(q)], _c05_events())
+
+    def nontrivial(t):
+        evs = [e for e in t["evs"] if e["op"] == "drain"]
+        if evs[1].get("hits", 0) > 0 and 0 < len(evs[1]["rows"]) < domain_size(t["qs"][0]):
+            return digest([t["qs"][0]["cond"], t["qs"][0]["sel"]])
+        return None
+    qc.execute(nontrivial)
+    return run.finish()
+
+
+CHECKS["C05"] = check_C05
